@@ -281,7 +281,8 @@ class Backend(abc.ABC):
 
         # If the unitary is the identity (no gates) and no noise model, no need for simulation:
         # return all-zero state or sample from statevector
-        if source_circuit.size == 0 and not self._noise_model:
+        # (an initial state given in a backend-specific form, e.g. a sympy Qubit, is left to the backend)
+        if source_circuit.size == 0 and not self._noise_model and isinstance(initial_statevector, (type(None), np.ndarray, list, tuple)):
             if initial_statevector is not None:
                 statevector = initial_statevector
                 frequencies = self._statevector_to_frequencies(initial_statevector)
